@@ -28,6 +28,7 @@ type delta struct {
 	Term  string // the amount added/subtracted (or assigned), parameters renamed by type ($Shard, $Order, ...)
 	Raw   string // same, but keeping the memory-instability markers (~)
 	Ins   *ssa.Store
+	Top   ssa.Instruction // where it happens in the anchor: the store itself, or the call that leads to the helper holding it
 }
 
 var reParamTok = regexp.MustCompile(`(^|[^)\w])#([0-9]+)`)
@@ -92,7 +93,10 @@ func deltasOfFrame(r *core.Run, anchor *ssa.Function, fr frame) []delta {
 			base := fr.T(r, st.Addr)
 			v := fr.T(r, st.Val)
 			rawV := fr.Raw(r, st.Val)
-			d := delta{Field: fp, Ins: st}
+			d := delta{Field: fp, Ins: st, Top: st}
+			if len(fr.Chain) > 0 {
+				d.Top = fr.Chain[0].(ssa.Instruction)
+			}
 			for _, pat := range []struct {
 				pre  string
 				sign int
@@ -124,6 +128,52 @@ func findDelta(ds []delta, field string) []delta {
 	var out []delta
 	for _, d := range ds {
 		if d.Field == field {
+			out = append(out, d)
+		}
+	}
+	return collapseAlternatives(out)
+}
+
+// collapseAlternatives: the same update (same field, sign and amount) written on two paths that exclude each other —
+// an early-return branch moved into a helper and the ordinary path — is one update, not two.
+func collapseAlternatives(ds []delta) []delta {
+	reach := func(a, b *ssa.BasicBlock) bool {
+		seen := map[*ssa.BasicBlock]bool{a: true}
+		q := []*ssa.BasicBlock{a}
+		for len(q) > 0 {
+			x := q[0]
+			q = q[1:]
+			for _, sc := range x.Succs {
+				if sc == b {
+					return true
+				}
+				if !seen[sc] {
+					seen[sc] = true
+					q = append(q, sc)
+				}
+			}
+		}
+		return false
+	}
+	exclusive := func(x, y delta) bool {
+		if x.Top == nil || y.Top == nil || x.Top.Block() == nil || y.Top.Block() == nil {
+			return false
+		}
+		bx, by := x.Top.Block(), y.Top.Block()
+		if bx == by || bx.Parent() != by.Parent() {
+			return false
+		}
+		return !reach(bx, by) && !reach(by, bx)
+	}
+	var out []delta
+	for _, d := range ds {
+		dup := false
+		for _, o := range out {
+			if o.Field == d.Field && o.Sign == d.Sign && o.Term == d.Term && exclusive(o, d) {
+				dup = true
+			}
+		}
+		if !dup {
 			out = append(out, d)
 		}
 	}
@@ -222,13 +272,16 @@ func ruleShardPledgeBooked(r *core.Run) {
 		if r.P.IsGenerated(f) {
 			continue
 		}
+		if r.P.Transparent(f) {
+			continue // a helper outside the vocabulary is judged as part of the functions it belongs to (frames)
+		}
 		ds := deltasOf(r, f)
 		sp := findDelta(ds, "order/types.Shard.Pledge")
 		if len(sp) == 0 {
 			continue
 		}
 		// only functions that persist the shard
-		if len(callsIn(r, f, "order/keeper.Keeper.SetShard")) == 0 {
+		if len(deepCalls(r, f, "order/keeper.Keeper.SetShard")) == 0 {
 			continue
 		}
 		for i, d := range sp {
@@ -264,6 +317,8 @@ func checkC14(r *core.Run) {
 	r.Rule("T-couple(sibling): Pledge.UsedStorage ± int64(shard.Size_) in ShardPledge/ShardRelease; Worker.Storage ± shard.Size_ and Worker.IncomePerSecond.Amount ± UnitPrice×Size_ in WorkerAppend/WorkerRelease")
 	r.Rule("T-couple(same function): Pledge.TotalStorage <-> Pool.TotalStorage and Pledge.TotalStoragePledged <-> Pool.TotalPledged.Amount in AddVstorage/RemoveVstorage")
 	r.Rule("T-couple(Shard.Pledge): every persisted Shard.Pledge := v moves Pledge.TotalShardPledged by v (or v − old)")
+	r.Rule("E6-pair(order): the order and shard id counters are restored by InitGenesis from the keys ExportGenesis read them from (an id handed out twice overwrites a live shard: its provider keeps UsedStorage, TotalShardPledged and Worker.Storage for a shard that no longer exists, and nothing can release them)")
+	ruleGenesisPairs(r, "E6-pair", "order")
 	r.Assume(aDeps)
 	coupleSiblings(r, "T-couple", "node/types.Pledge.UsedStorage", "node/keeper.Keeper.ShardPledge", "node/keeper.Keeper.ShardRelease")
 	coupleSiblings(r, "T-couple", "market/types.Worker.Storage", "market/keeper.Keeper.WorkerAppend", "market/keeper.Keeper.WorkerRelease")
@@ -384,6 +439,8 @@ func checkC06(r *core.Run) {
 	r.Rule("T-bankerr: the error result of every bank mutator call is tested, stored or returned")
 	r.Rule("T-booked: in ShardPledge the collateral persisted in the shard equals the coins taken (or balance taken + debt recorded)")
 	r.Rule("E7-flow: every bank mutator call site matches a row of the closed flow table (modules, counter-party term, amount form)")
+	r.Rule("T-remaining-term: at the hand-over of a migrating shard the replacement's Duration is computed from the replaced shard's own CreatedAt and Duration (the worker must stop earning when the paid period ends)")
+	ruleRemainingTerm(r, "T-remaining-term")
 	r.Assume(aDeps)
 	r.Assume(aCG)
 	r.Assume("A-bank: bank.SendCoinsFromModuleToModule/ToAccount panic when a named module account is not registered (cosmos-sdk v0.46 x/bank keeper)")
